@@ -912,6 +912,19 @@ class JuliaI(Interp):
             if fn[1] in ('ltoh', 'htol'):
                 return arr           # host is little-endian here: identity
             return colarr(flatF(arr).byteswap(), arr.shape)
+        if name == 'reinterpret':
+            t, arr = a
+            if not (isinstance(t, tuple) and t[0] == 'sym' and t[1] in JULIA_T):
+                raise IllFormed(f'reinterpret: invalid type {t!r}')
+            arr = np.asarray(arr)
+            newdt = np.dtype(JULIA_T[t[1]])
+            dims = list(arr.shape)
+            nbytes0 = dims[0] * arr.dtype.itemsize
+            if nbytes0 % newdt.itemsize:
+                raise IllFormed(f'ArgumentError: cannot reinterpret an array whose first dimension has {dims[0]} elements of '
+                                f'{arr.dtype.itemsize} bytes as elements of {newdt.itemsize} bytes')
+            dims[0] = nbytes0 // newdt.itemsize
+            return colarr(flatF(arr).view(newdt), dims)
         raise NotUnderstood(f'julia builtin {name}')
 
 
